@@ -1966,6 +1966,11 @@ pub fn c13(rec: &mut Rec, rng: &mut Rng, thorough: bool) {
             if let Some(c) = cl {
                 lines.push(format!("Content-Length: {}", c));
             }
+            // (chunked framing plays no part in the rule: a body is awaited exactly when Content-Length says so)
+            if rng.chance(1, 5) {
+                lines.push(format!("{}: chunked", gen::case_pattern(rng, "Transfer-Encoding")));
+                rec.count("continue:with-transfer-encoding-chunked");
+            }
             if rng.chance(1, 2) {
                 lines.reverse();
             }
